@@ -30,7 +30,12 @@ impl Cx<'_> {
             P,
             &format!("C05.{rule}"),
             sig,
-            J::obj(vec![("why", J::s(why)), ("extra", extra), ("config", self.cfg.to_json()), ("history", J::arr(self.hist.iter().cloned()))]),
+            J::obj(vec![
+                ("why", J::s(why)),
+                ("extra", extra),
+                ("config", self.cfg.to_json()),
+                ("history", J::arr(self.hist.iter().cloned())),
+            ]),
             J::obj(vec![
                 ("check", J::s("c05")),
                 ("seed", J::U(self.a.seed)),
@@ -63,9 +68,23 @@ impl Cx<'_> {
 /// a request of a function the outstation executes (non-READ), acceptable to it
 fn executable_request(r: &mut Rng, seq: u8) -> (Vec<u8>, String) {
     let f = r.pick_copy(&[
-        ra::F_WRITE, ra::F_SELECT, ra::F_OPERATE, ra::F_DIRECT_OPERATE, ra::F_DIRECT_OPERATE_NR, ra::F_IMMED_FREEZE, ra::F_IMMED_FREEZE_NR,
-        ra::F_FREEZE_CLEAR, ra::F_FREEZE_CLEAR_NR, ra::F_FREEZE_AT_TIME, ra::F_FREEZE_AT_TIME_NR, ra::F_COLD_RESTART, ra::F_WARM_RESTART,
-        ra::F_ENABLE_UNSOL, ra::F_DISABLE_UNSOL, ra::F_DELAY_MEASURE, ra::F_RECORD_CURRENT_TIME,
+        ra::F_WRITE,
+        ra::F_SELECT,
+        ra::F_OPERATE,
+        ra::F_DIRECT_OPERATE,
+        ra::F_DIRECT_OPERATE_NR,
+        ra::F_IMMED_FREEZE,
+        ra::F_IMMED_FREEZE_NR,
+        ra::F_FREEZE_CLEAR,
+        ra::F_FREEZE_CLEAR_NR,
+        ra::F_FREEZE_AT_TIME,
+        ra::F_FREEZE_AT_TIME_NR,
+        ra::F_COLD_RESTART,
+        ra::F_WARM_RESTART,
+        ra::F_ENABLE_UNSOL,
+        ra::F_DISABLE_UNSOL,
+        ra::F_DELAY_MEASURE,
+        ra::F_RECORD_CURRENT_TIME,
     ]);
     let mut b = ra::B::request(f, seq);
     let mut label = format!("f{f}");
@@ -80,7 +99,11 @@ fn executable_request(r: &mut Rng, seq: u8) -> (Vec<u8>, String) {
                 label += "/abs-time";
             }
             2 => {
-                b = b.prefixed8(34, 1, &[(r.below(5) as u8, (r.u16() % 1000).to_le_bytes().to_vec())]);
+                b = b.prefixed8(
+                    34,
+                    1,
+                    &[(r.below(5) as u8, (r.u16() % 1000).to_le_bytes().to_vec())],
+                );
                 label += "/dead-band";
             }
             _ => {
@@ -93,7 +116,11 @@ fn executable_request(r: &mut Rng, seq: u8) -> (Vec<u8>, String) {
             b = b.raw(&gen::control_objects(r, n));
         }
         ra::F_IMMED_FREEZE | ra::F_IMMED_FREEZE_NR | ra::F_FREEZE_CLEAR | ra::F_FREEZE_CLEAR_NR => {
-            b = if r.bool() { b.all(20, 0) } else { b.range8(20, 0, 0, 3, &[]) };
+            b = if r.bool() {
+                b.all(20, 0)
+            } else {
+                b.range8(20, 0, 0, 3, &[])
+            };
         }
         ra::F_FREEZE_AT_TIME | ra::F_FREEZE_AT_TIME_NR => {
             let mut d = ra::time48(r.u64() & 0xFFFF_FFFF);
@@ -109,7 +136,10 @@ fn executable_request(r: &mut Rng, seq: u8) -> (Vec<u8>, String) {
 }
 
 fn side_effects(evs: &[(u64, Ev)]) -> Vec<String> {
-    evs.iter().filter(|(_, e)| e.is_side_effect()).map(|(_, e)| format!("{e:?}")).collect()
+    evs.iter()
+        .filter(|(_, e)| e.is_side_effect())
+        .map(|(_, e)| format!("{e:?}"))
+        .collect()
 }
 
 fn disturb(sim: &OutSim, r: &mut Rng, n: u16, t: u64) -> &'static str {
@@ -118,8 +148,16 @@ fn disturb(sim: &OutSim, r: &mut Rng, n: u16, t: u64) -> &'static str {
     }
     let i = r.below(n as u64) as u16;
     sim.db(|db| {
-        db.update(i, &AnalogInput::new(t as f64 + 0.5, Flags::ONLINE, Time::synchronized(t)), UpdateOptions::new(true, EventMode::Force));
-        db.update(i, &BinaryInput::new(t % 2 == 0, Flags::ONLINE, Time::synchronized(t)), UpdateOptions::new(true, EventMode::Force))
+        db.update(
+            i,
+            &AnalogInput::new(t as f64 + 0.5, Flags::ONLINE, Time::synchronized(t)),
+            UpdateOptions::new(true, EventMode::Force),
+        );
+        db.update(
+            i,
+            &BinaryInput::new(t % 2 == 0, Flags::ONLINE, Time::synchronized(t)),
+            UpdateOptions::new(true, EventMode::Force),
+        )
     });
     "event"
 }
@@ -141,7 +179,13 @@ async fn scenario(a: &ShardArgs, idx: u64) {
         populate(db, &mut rr, npoints);
     })
     .await;
-    let mut cx = Cx { a, idx, cfg: cfg.clone(), hist: vec![], sent: vec![] };
+    let mut cx = Cx {
+        a,
+        idx,
+        cfg: cfg.clone(),
+        hist: vec![],
+        sent: vec![],
+    };
     let rx = sim.collect();
     let (s0, u0) = cx.record(&rx);
     cx.remember(&s0);
@@ -164,8 +208,18 @@ async fn scenario(a: &ShardArgs, idx: u64) {
             for _ in 0..rounds {
                 seq = (seq + 1) & 0x0F;
                 let (req, label) = executable_request(&mut r, seq);
-                let state = if null_outstanding { "unsol-wait" } else if cfg.unsolicited { "unsol-ready" } else { "idle" };
-                cx.hist.push(format!("t={} {label} {}", sim.now(), hex(&req[..req.len().min(40)])));
+                let state = if null_outstanding {
+                    "unsol-wait"
+                } else if cfg.unsolicited {
+                    "unsol-ready"
+                } else {
+                    "idle"
+                };
+                cx.hist.push(format!(
+                    "t={} {label} {}",
+                    sim.now(),
+                    hex(&req[..req.len().min(40)])
+                ));
                 let rx = sim.request(&req).await;
                 let (sol, unsol) = cx.record(&rx);
                 cx.remember(&sol);
@@ -191,7 +245,8 @@ async fn scenario(a: &ShardArgs, idx: u64) {
                 let reps = r.range(1, 3);
                 for k in 0..reps {
                     out::eval(1);
-                    cx.hist.push(format!("t={} repeat#{k} after {what}", sim.now()));
+                    cx.hist
+                        .push(format!("t={} repeat#{k} after {what}", sim.now()));
                     let rx = sim.request(&req).await;
                     let (sol2, unsol2) = cx.record(&rx);
                     let evs = sim.mock.take();
@@ -199,20 +254,57 @@ async fn scenario(a: &ShardArgs, idx: u64) {
                     let key = format!("{label}/{state}/{what}");
                     out::distinct(&format!("a/{key}"));
                     if !se.is_empty() {
-                        cx.viol("re_executed", &format!("{label}|{state}"), format!("repeat of the last request fired callbacks {se:?}"), J::hex(&req));
+                        cx.viol(
+                            "re_executed",
+                            &format!("{label}|{state}"),
+                            format!("repeat of the last request fired callbacks {se:?}"),
+                            J::hex(&req),
+                        );
                     } else {
                         out::count("repeat_not_executed", 1);
                     }
                     match (&first, sol2.first()) {
                         (None, None) => out::count("repeat_no_reply_ok", 1),
-                        (Some(x), Some(y)) if x == y && sol2.len() == 1 => out::count("repeat_echo_identical", 1),
-                        (Some(x), Some(y)) => {
-                            let d = x.iter().zip(y.iter()).position(|(p, q)| p != q).unwrap_or(x.len().min(y.len()));
-                            let wherep = if d < 2 { "ctrl" } else if d < 4 { "iin" } else { "objects" };
-                            cx.viol("echo_differs", &format!("{wherep}|{state}|{what}"), format!("echo differs from the first response at byte {d}"), J::obj(vec![("first", J::hex(x)), ("echo", J::hex(y)), ("request", J::hex(&req))]));
+                        (Some(x), Some(y)) if x == y && sol2.len() == 1 => {
+                            out::count("repeat_echo_identical", 1)
                         }
-                        (Some(x), None) => cx.viol("echo_missing", &format!("{label}|{state}"), "the repeat got no reply although the first transmission was answered".into(), J::hex(x)),
-                        (None, Some(y)) => cx.viol("echo_invented", &format!("{label}|{state}"), "a reply appeared where none was sent before".into(), J::hex(y)),
+                        (Some(x), Some(y)) => {
+                            let d = x
+                                .iter()
+                                .zip(y.iter())
+                                .position(|(p, q)| p != q)
+                                .unwrap_or(x.len().min(y.len()));
+                            let wherep = if d < 2 {
+                                "ctrl"
+                            } else if d < 4 {
+                                "iin"
+                            } else {
+                                "objects"
+                            };
+                            cx.viol(
+                                "echo_differs",
+                                &format!("{wherep}|{state}|{what}"),
+                                format!("echo differs from the first response at byte {d}"),
+                                J::obj(vec![
+                                    ("first", J::hex(x)),
+                                    ("echo", J::hex(y)),
+                                    ("request", J::hex(&req)),
+                                ]),
+                            );
+                        }
+                        (Some(x), None) => cx.viol(
+                            "echo_missing",
+                            &format!("{label}|{state}"),
+                            "the repeat got no reply although the first transmission was answered"
+                                .into(),
+                            J::hex(x),
+                        ),
+                        (None, Some(y)) => cx.viol(
+                            "echo_invented",
+                            &format!("{label}|{state}"),
+                            "a reply appeared where none was sent before".into(),
+                            J::hex(y),
+                        ),
                     }
                     cx.remember(&unsol2);
                 }
@@ -231,9 +323,19 @@ async fn scenario(a: &ShardArgs, idx: u64) {
             cx.remember(&u);
             seq = (seq + 1) & 0x0F;
             let rd = match r.below(3) {
-                0 => ra::B::request(ra::F_READ, seq).all(60, 2).all(60, 3).all(60, 4).all(60, 1).done(),
+                0 => ra::B::request(ra::F_READ, seq)
+                    .all(60, 2)
+                    .all(60, 3)
+                    .all(60, 4)
+                    .all(60, 1)
+                    .done(),
                 1 => ra::B::request(ra::F_READ, seq).all(60, 1).done(),
-                _ => ra::B::request(ra::F_READ, seq).all(30, 0).all(1, 0).all(20, 0).all(2, 0).done(),
+                _ => ra::B::request(ra::F_READ, seq)
+                    .all(30, 0)
+                    .all(1, 0)
+                    .all(20, 0)
+                    .all(2, 0)
+                    .done(),
             };
             cx.hist.push(format!("t={} READ {}", sim.now(), hex(&rd)));
             let rx = sim.request(&rd).await;
@@ -262,11 +364,22 @@ async fn scenario(a: &ShardArgs, idx: u64) {
                             disturb(&sim, &mut r, npoints, sim.now() + 7);
                         }
                         out::eval(1);
-                        cx.hist.push(format!("t={} repeat READ #{j} while fragment {k} awaits confirm", sim.now()));
+                        cx.hist.push(format!(
+                            "t={} repeat READ #{j} while fragment {k} awaits confirm",
+                            sim.now()
+                        ));
                         let rx = sim.request(&rd).await;
                         let (es, eu) = cx.record(&rx);
                         cx.remember(&eu);
-                        out::distinct(&format!("b1/frag{}/{}", k.min(4), if f[0] & ra::FIN != 0 { "final" } else { "nonfinal" }));
+                        out::distinct(&format!(
+                            "b1/frag{}/{}",
+                            k.min(4),
+                            if f[0] & ra::FIN != 0 {
+                                "final"
+                            } else {
+                                "nonfinal"
+                            }
+                        ));
                         for e in &es {
                             if cx.sent.contains(e) {
                                 out::count("series_echo_identical", 1);
@@ -315,7 +428,11 @@ async fn scenario(a: &ShardArgs, idx: u64) {
                 }
             }
             seq = (seq + 1) & 0x0F;
-            let en = ra::B::request(ra::F_ENABLE_UNSOL, seq).all(60, 2).all(60, 3).all(60, 4).done();
+            let en = ra::B::request(ra::F_ENABLE_UNSOL, seq)
+                .all(60, 2)
+                .all(60, 3)
+                .all(60, 4)
+                .done();
             let rx = sim.request(&en).await;
             let (s, u) = cx.record(&rx);
             cx.remember(&s);
@@ -332,7 +449,11 @@ async fn scenario(a: &ShardArgs, idx: u64) {
                 out::count("no_unsolicited_started", 1);
                 return;
             };
-            cx.hist.push(format!("t={} unsolicited {}", sim.now(), hex(&outstanding[..outstanding.len().min(40)])));
+            cx.hist.push(format!(
+                "t={} unsolicited {}",
+                sim.now(),
+                hex(&outstanding[..outstanding.len().min(40)])
+            ));
             let max = cfg.max_unsol_retries.unwrap_or(4).min(4);
             for k in 0..=max {
                 // something changes while waiting: new events (IIN), a solicited non-READ request (other buffer)
@@ -358,15 +479,27 @@ async fn scenario(a: &ShardArgs, idx: u64) {
                 let rx = sim.collect();
                 let (s, u) = cx.record(&rx);
                 cx.remember(&s);
-                cx.hist.push(format!("t={} timeout #{k} after {what}: {} unsolicited fragment(s)", sim.now(), u.len()));
+                cx.hist.push(format!(
+                    "t={} timeout #{k} after {what}: {} unsolicited fragment(s)",
+                    sim.now(),
+                    u.len()
+                ));
                 for f in &u {
                     if f[0] & 0x0F == outstanding[0] & 0x0F {
                         out::eval(1);
-                        out::distinct(&format!("b2/retry{}/{what}/retries{:?}", k.min(3), cfg.max_unsol_retries));
+                        out::distinct(&format!(
+                            "b2/retry{}/{what}/retries{:?}",
+                            k.min(3),
+                            cfg.max_unsol_retries
+                        ));
                         if *f == outstanding {
                             out::count("unsol_retry_identical", 1);
                         } else {
-                            let d = f.iter().zip(outstanding.iter()).position(|(p, q)| p != q).unwrap_or(0);
+                            let d = f
+                                .iter()
+                                .zip(outstanding.iter())
+                                .position(|(p, q)| p != q)
+                                .unwrap_or(0);
                             cx.viol(
                                 "resend_is_mixture",
                                 &format!("unsol-retry|{}|{what}", if d < 4 { "header" } else { "objects" }),
@@ -387,7 +520,12 @@ async fn scenario(a: &ShardArgs, idx: u64) {
         }
     }
     for p in crate::verif::util::take_panics() {
-        cx.viol("panic", &crate::verif::util::norm_location(&p.location), format!("panic {} at {}", p.message, p.location), J::Null);
+        cx.viol(
+            "panic",
+            &crate::verif::util::norm_location(&p.location),
+            format!("panic {} at {}", p.message, p.location),
+            J::Null,
+        );
     }
     if a.replay.is_some() {
         for l in crate::verif::trace::tail(120) {
@@ -398,12 +536,18 @@ async fn scenario(a: &ShardArgs, idx: u64) {
         }
     }
     if out::sample_count() < 3 {
-        out::sample(J::obj(vec![("part", J::U(part)), ("history", J::arr(cx.hist.iter().cloned()))]));
+        out::sample(J::obj(vec![
+            ("part", J::U(part)),
+            ("history", J::arr(cx.hist.iter().cloned())),
+        ]));
     }
 }
 
 pub fn run(a: &ShardArgs) -> Result<(), String> {
-    let only: Option<u64> = a.replay.as_ref().and_then(|p| super::common::replay_scenario(p));
+    let only: Option<u64> = a
+        .replay
+        .as_ref()
+        .and_then(|p| super::common::replay_scenario(p));
     let n = a.n(8000);
     for idx in 0..n {
         if idx % a.nshards != a.shard {
